@@ -358,3 +358,32 @@ Proof.
   - rewrite El. unfold zlen. f_equal. rewrite <- (map_length tk_tok (nth n (fst M) [])), Eq. now rewrite map_length.
   - intros ->. rewrite E, E'. unfold row_out. apply map_ext. intros x. reflexivity.
 Qed.
+
+(* ---- the same statements under the model's own well-formedness predicate (Proofs.tokens_shape_ok) ------------------- *)
+Theorem tokens_tie_ok : forall R refs slices ref_lens partial retain,
+  tokens_shape_ok refs slices R -> lens_shape_ok (List.length refs) ref_lens ->
+  exists st, Interp.run ext10 chunk_tokens_body (tokens_vars R refs slices ref_lens partial retain)
+             = Ok (result_value R (chunk_tokens as_coded refs slices ref_lens partial retain)) st.
+Proof. intros R refs slices ref_lens partial retain [HR Hl]. now apply tokens_tie. Qed.
+
+Theorem src_chunk_tokens_tie_ok : forall R refs slices ref_lens partial retain,
+  tokens_shape_ok refs slices R -> lens_shape_ok (List.length refs) ref_lens ->
+  src_chunk_tokens R refs slices ref_lens partial retain = Some (chunk_tokens as_coded refs slices ref_lens partial retain).
+Proof. intros R refs slices ref_lens partial retain [HR Hl]. now apply src_chunk_tokens_tie. Qed.
+
+Theorem src_chunk_tokens_check_ok : forall R refs slices ref_lens partial retain impl,
+  tokens_shape_ok refs slices R -> lens_shape_ok (List.length refs) ref_lens ->
+  src_chunk_tokens_check R refs slices ref_lens partial retain impl
+  = check_tokens as_coded refs slices ref_lens partial retain impl.
+Proof. intros R refs slices ref_lens partial retain impl [HR Hl]. now apply src_chunk_tokens_check_is_check. Qed.
+
+Theorem source_tokens_kept_in_order_ok : forall R refs slices ref_lens partial retain n,
+  tokens_shape_ok refs slices R -> lens_shape_ok (List.length refs) ref_lens -> (n < List.length refs)%nat ->
+  exists rows lens st spec_row,
+    Interp.run ext10 chunk_tokens_body (tokens_vars R refs slices ref_lens partial retain) = Ok (result_value R (rows, lens)) st
+    /\ read_result (chunked_tensor R rows) (vec_tensor lens) = Some (rows, lens)
+    /\ tokens_row_spec partial retain (rowL ref_lens n) (nth n slices (0, 0)%Z) (nth n refs []) spec_row
+    /\ map tk_tok (nth n rows []) = map tk_tok spec_row
+    /\ nth n lens 0%Z = zlen spec_row
+    /\ (retain = true -> nth n rows [] = spec_row).
+Proof. intros R refs slices ref_lens partial retain n [HR Hl]. now apply source_tokens_kept_in_order. Qed.
